@@ -7,9 +7,11 @@
 
 use crate::algorithms::tournament_tree::{EnhancedLoserTree, LoserTreeConfig};
 use crate::error::{Result, ZiporaError};
+use std::cell::RefCell;
 use std::cmp::Ordering;
 use std::collections::BinaryHeap;
 use std::path::PathBuf;
+use std::rc::Rc;
 use std::fs::{File, remove_file};
 use std::io::{BufReader, BufWriter, Read, Write};
 use std::marker::PhantomData;
@@ -487,14 +489,30 @@ where
 
         let mut tournament_tree = EnhancedLoserTree::with_comparator(tree_config, self.comparator.clone());
 
+        // The ways of the tree yield plain items, so a run that cannot be read back in full
+        // (file cut short, record that does not decode) ends there and the first such error
+        // is kept here and returned once the merge is over.
+        let first_error: Rc<RefCell<Option<ZiporaError>>> = Rc::new(RefCell::new(None));
+
         // Add all runs to the tournament tree
         for run in &self.temp_files {
+            let first_error = Rc::clone(&first_error);
             let iter = run.iter::<T>()?
-                .filter_map(|result| result.ok()); // Skip errors instead of panicking
+                .map_while(move |result| match result {
+                    Ok(item) => Some(item),
+                    Err(e) => {
+                        first_error.borrow_mut().get_or_insert(e);
+                        None
+                    }
+                })
+                .fuse();
             tournament_tree.add_way(iter)?;
         }
 
         let result = tournament_tree.merge_to_vec()?;
+        if let Some(e) = first_error.borrow_mut().take() {
+            return Err(e);
+        }
         self.stats.merge_passes = 1;
 
         Ok(result)
